@@ -156,6 +156,12 @@ def eqAdmit (q : List (List UInt8)) : EqOp → EqAns → Option (List (List UInt
   | .set pos rec, a =>
     if a.st = .ok ∧ pos < q.length ∧ a.got = none then eqCheck (q.set pos rec) a else none
 
+/-- the caller's side of the contract for a queue of `reclen`-byte records -/
+def eqContract (reclen : Nat) (q : List (List UInt8)) : EqOp → Prop
+  | .add rec => rec.length = reclen
+  | .set pos rec => pos < q.length ∧ rec.length = reclen
+  | _ => True
+
 def eqAdmitAll : List (List UInt8) → List (EqOp × EqAns) → Option (List (List UInt8))
   | q, [] => some q
   | q, (op, a) :: rest => match eqAdmit q op a with
